@@ -141,3 +141,42 @@ func init() {
 		return nil
 	}
 }
+
+// msgpack stream decoder/encoder of the agent's RPC connection: Decode hands out the
+// next value the harness queued (vfQueueDecode); a value of another type, or an
+// empty queue, is a decode error. Encode records what was written.
+func init() {
+	dec := "(*github.com/hashicorp/go-msgpack/v2/codec.Decoder).Decode"
+	externals[dec] = func(p *Path, fr *frame, a []Value) Value {
+		q := p.logs["dec.queue"]
+		if len(q) == 0 {
+			return p.errorValue(p.e.strOf("EOF"))
+		}
+		item := q[0].(Iface)
+		p.logs["dec.queue"] = q[1:]
+		out := a[1].(Iface)
+		opt, isPtr := out.T.Underlying().(*types.Pointer)
+		if !isPtr || item.T == nil {
+			return p.errorValue(p.e.strOf("decode error (stub)"))
+		}
+		typ, val := item.T, item.V
+		if pt, ok := typ.Underlying().(*types.Pointer); ok {
+			if ptr, _ := val.(Ptr); ptr != nil {
+				typ, val = pt.Elem(), *ptr
+			}
+		}
+		if !types.Identical(opt.Elem(), typ) {
+			return p.errorValue(p.e.strOf("decode error (stub: body of another type)"))
+		}
+		*out.V.(Ptr) = deepCopy(val, map[Ptr]Ptr{})
+		return Iface{}
+	}
+	intrinsics["vfQueueDecode"] = func(p *Path, fr *frame, a []Value) Value {
+		ifc := a[0].(Iface)
+		p.logs["dec.queue"] = append(p.logs["dec.queue"], Iface{T: ifc.T, V: deepCopy(ifc.V, map[Ptr]Ptr{})})
+		return nil
+	}
+	intrinsics["vfDecodeQueueLen"] = func(p *Path, fr *frame, a []Value) Value {
+		return p.e.ts.BV(64, uint64(len(p.logs["dec.queue"])))
+	}
+}
